@@ -821,6 +821,7 @@ private:
 
 			uint32_t final_fbits = uint32_t(fraction >> 32);
 			bool bitNPlusOne = false;
+			uint32_t moreBits = 0x0;
 			if (scale <= 28) {
 				bitNPlusOne = bool(0x0000000080000000 & fraction);
 				//bitNPlusOne = bool(0x0000'0000'8000'0000 & fraction);
@@ -829,6 +830,7 @@ private:
 			else {
 				if (scale == 30) {
 					bitNPlusOne = bool(exp & 0x2);
+					moreBits = exp & 0x1;
 					exp = 0;
 				}
 				else if (scale == 29) {
@@ -852,7 +854,7 @@ private:
 
 			// n+1 frac bit is 1. Need to check if another bit is 1 too, if not round to even
 			if (bitNPlusOne) {
-				uint32_t moreBits = (0x7FFFFFFF & fraction) ? 0x1 : 0x0;
+				if (0x7FFFFFFF & fraction) moreBits = 0x1;
 				bits += (bits & 0x0000001) | moreBits;
 			}
 		}
